@@ -198,6 +198,7 @@ func init() {
 			{Fn: "H_base_code", Fuel: 60_000_000, Tier: "quick", Reach: []string{"end"}},
 			{Fn: "H_base_after", Fuel: 60_000_000, Tier: "quick", Reach: []string{"end"}},
 			{Fn: "H_base_autoload", Fuel: 60_000_000, Tier: "quick", Reach: []string{"end"}},
+			{Fn: "H_base_closure", Fuel: 30_000_000, Tier: "quick", Reach: []string{"end"}},
 			{Fn: "H_autoload", Params: k(1), Fuel: 60_000_000, Tier: "quick", Reach: []string{"end"}},
 			{Fn: "H_autoload", Params: k(2), Fuel: 60_000_000, Tier: "thorough", Reach: []string{"end"}},
 		},
@@ -269,6 +270,7 @@ func init() {
 		Runs: []RunDef{
 			{Fn: "H_alone", Fuel: 30_000_000, Tier: "quick", Reach: []string{"end"}},
 			{Fn: "H_sequential", Fuel: 30_000_000, Tier: "quick", Reach: []string{"end"}},
+			{Fn: "H_two_deep", Fuel: 200_000_000, Tier: "quick", Reach: []string{"end"}},
 			{Fn: "H_two", Fuel: 30_000_000, Tier: "quick", Sched: true, Preempt: 2, Reach: []string{"end"}, NativeTwin: "N_reentrant"},
 			{Fn: "H_two_locals", Fuel: 30_000_000, Tier: "quick", Sched: true, Preempt: 2, Reach: []string{"end"}, NativeTwin: "N_reentrant"},
 			{Fn: "H_two_middleware", Fuel: 30_000_000, Tier: "quick", Sched: true, Preempt: 2, Reach: []string{"end"}, NativeTwin: "N_reentrant"},
